@@ -56,6 +56,18 @@ theorem lz13_total (x : BA) :
 /-- `calculate_lz13_header` never returns its error (nor panics). -/
 theorem lz13_header_total (x : BA) : ∃ l, lz13Header x = .ok l := lz13Header_ok x
 
+/-- Consequently LZ13 compression is injective below 16 MiB. -/
+theorem lz13_injective (x y : BA) (hx : x.size < 2 ^ 24) (hy : y.size < 2 ^ 24)
+    (h : (compress13 x).1 = (compress13 y).1) : x = y := by
+  obtain ⟨ox, hx1, hx2, _⟩ := lz13_roundtrip x hx
+  obtain ⟨oy, hy1, hy2, _⟩ := lz13_roundtrip y hy
+  have : ox = oy := by
+    have := hx1.symm.trans (h.trans hy1)
+    injection this
+  subst this
+  have := hx2.symm.trans hy2
+  injection this
+
 /-! Non-vacuity. -/
 example : ∃ out, (compress13 #[7, 7, 7, 7, 7, 7, 7, 7, 7, 7, 7, 7, 7, 7, 7, 7, 7, 7, 7, 7, 7, 9]).1 = .ok out ∧
     decompress13 out.toList = .ok #[7, 7, 7, 7, 7, 7, 7, 7, 7, 7, 7, 7, 7, 7, 7, 7, 7, 7, 7, 7, 7, 9] :=
